@@ -50,7 +50,8 @@ Definition fc_graph (G : graph) (v : vals) (a b : N) : bool :=
 Definition slots (G : graph) (g : N) : list aevent :=
   map (fun p => s_ev (snd p)) (filter (fun p => (s_spf (snd p) <? g) && (g <=? a_frame (s_ev (snd p)))) G).
 Definition quorum_on (G : graph) (v : vals) (a : N) (g : N) : bool :=
-  let rs := filter (fun r => fc_graph G v a (a_id r)) (slots G g) in
+  (* roots are previously accepted events: the candidate itself does not count *)
+  let rs := filter (fun r => negb (a_id r =? a) && fc_graph G v a (a_id r)) (slots G g) in
   v_quorum v <=? fold_left N.add
     (map (fun p : N * N => if existsb (fun r => a_creator r =? fst p) rs then snd p else 0) v) 0.
 (* the least g >= from without a quorum (fuel: a frame with a quorum has a slot, slots are finite) *)
